@@ -483,7 +483,7 @@ func c01Filler(ch byte, n int) string { return strings.Repeat(string(ch), n) }
 func c01Other(m *c01Model, kind string) rows {
 	L := m.lenOr(2)
 	var fresh []string // names no row of the model has
-	for _, n := range []string{"d", "e", "f", "g", "h", "i", "j", "k"} {
+	for _, n := range []string{"d", "e", "f", "g", "h", "i", "j", "k", "l", "m", "n", "o", "p", "q", "r", "s"} {
 		if k, _ := m.count(n); k == 0 {
 			fresh = append(fresh, n)
 		}
@@ -505,6 +505,8 @@ func c01Other(m *c01Model, kind string) rows {
 		return m.Rows.clone()
 	case "disjoint":
 		return rows{{fresh[0], c01Filler('G', L)}, {fresh[1], c01Filler('C', L)}}
+	case "disjointRev": // three new names, not in their sorted order (an implementation that collects them in a map loses the order)
+		return rows{{fresh[2], c01Filler('G', L)}, {fresh[0], c01Filler('C', L)}, {fresh[1], c01Filler('T', L)}}
 	case "wrongLen":
 		return rows{{fresh[0], c01Filler('G', L+1)}}
 	case "wrongLen2nd":
@@ -597,7 +599,7 @@ func c01Ops() []c01Op {
 		}
 	}
 	// --- Append / Concat
-	for _, kind := range []string{"share1", "shareAll", "sameRows", "disjoint", "wrongLen", "wrongLen2nd", "empty"} {
+	for _, kind := range []string{"share1", "shareAll", "sameRows", "disjoint", "disjointRev", "wrongLen", "wrongLen2nd", "empty"} {
 		kind := kind
 		add("append:"+kind, true, false, func(w *c01World) {
 			m := &w.m
@@ -643,7 +645,7 @@ func c01Ops() []c01Op {
 			}
 		})
 	}
-	for _, kind := range []string{"share1", "shareAll", "disjoint", "empty"} {
+	for _, kind := range []string{"share1", "shareAll", "disjoint", "disjointRev", "empty"} {
 		kind := kind
 		add("concat:"+kind, true, false, func(w *c01World) {
 			m := &w.m
@@ -1647,7 +1649,7 @@ var c01CoreOps = map[string]bool{
 	"policy:name": true, "policy:sequence": true,
 	"add:a:same": true, "add:b:dupseq": true, "add:c:long": true, "add:a_0001:same": true,
 	"append:shareAll": true, "append:disjoint": true, "append:wrongLen": true,
-	"concat:share1": true, "concat:disjoint": true, "concat:empty": true,
+	"concat:share1": true, "concat:disjoint": true, "concat:disjointRev": true, "concat:empty": true,
 	"rename:a>c": true, "rename:a>b": true, "rename:swapab": true, "rename:chain": true, "rename:a_0001>z": true, "renameRegexp:^a>z": true, "renameRegexp:$>_0001": true,
 	"appendId:_x:right": true, "cleanNames": true, "trimNames:3": true, "trimNamesAuto": true,
 	"sort": true, "shuffle": true, "sample:1": true,
